@@ -6,6 +6,7 @@ from scen_sys import Sys
 from prog_timers import oracle_timers, oracle_restart_timers
 from prog_registry import RegistryProgram, oracle_registry
 from prog_children import ChildrenProgram, oracle_children
+from prog_broker import BrokerProgram, oracle_broker
 from prog_mailbox import (oracle_containment, oracle_owning, MailboxProgram, oracle_fifo, oracle_own_result, oracle_resolves, oracle_stop_barrier,
                           oracle_backpressure, oracle_handles, oracle_liveness_flags)
 
@@ -17,7 +18,7 @@ def mailbox_programs(tier):
 
     def add(name, cap, scripts, hp=0, tag='q', **kw):
         d = dict(name=name, cap=cap, scripts=scripts, hp=hp, tag=tag, pre=(), started_actions=(), strategy='RestartOnly',
-                 faults=0, max_clock=None, K=None, max_steps=60, started=None, owning=False, registry=False, mt=False, children=())
+                 faults=0, max_clock=None, K=None, max_steps=60, started=None, owning=False, registry=False, mt=False, children=(), broker=None)
         d.update(kw)
         P.append(d)
     # FIFO across paths and clients, own result, stop barrier
@@ -74,6 +75,13 @@ def mailbox_programs(tier):
     add('children_parent_killed', None, {'c1': [('call', A, 'bcast:1'), ('ping', A)]}, children=(('c1', R, False), ('c2', AC, False)), K=1, faults=1)
     add('children_parent_panics', None, {'c1': [('send', 'c1', 'x1'), ('call', A, 'panic:1')]}, children=(('c1', R, True), ('c2', AC, False)), K=1)
     add('children_kept_outside', None, {'c1': [('stop', A), ('call', 'c1', 'x1'), ('drop', 'c1')]}, children=(('c1', AC, True),), K=2)
+    # broker (C09)
+    add('broker_two_pubs', None, {'pub': [('ping', 's1'), ('publish', 'p1'), ('publish', 'p2')]}, broker=dict(nactors=2, subscribers=(1,)), K=1, max_steps=80)
+    add('broker_two_subscribers_two_publishers', None, {'pa': [('ping', 's1'), ('ping', 's2'), ('publish', 'p1')], 'pb': [('ping', 's1'), ('ping', 's2'), ('publish', 'p2')]}, broker=dict(nactors=2, subscribers=(1, 2)), K=1, max_steps=90, tag='t')
+    add('broker_two_subscribers_one_publisher', None, {'pa': [('ping', 's1'), ('ping', 's2'), ('publish', 'p1'), ('publish', 'p2')]}, broker=dict(nactors=2, subscribers=(1, 2)), K=1, max_steps=90)
+    add('broker_dead_subscriber', None, {'pub': [('ping', 's1'), ('ping', 's2'), ('stop', 's1'), ('ping', 's1'), ('publish', 'p1'), ('publish', 'p2')]}, broker=dict(nactors=2, subscribers=(1, 2)), K=1, max_steps=90)
+    add('broker_unsubscribe_resubscribe', None, {'pub': [('ping', 's1'), ('get_broker', 'b'), ('addr_subscribe', 'b', 's1'), ('addr_publish', 'b', 'p1'), ('unsubscribe', 'b', 's1'), ('addr_publish', 'b', 'p2')]}, broker=dict(nactors=2, subscribers=(1,)), K=1, max_steps=90)
+    add('broker_ctx_publish_mt', None, {'pub': [('ping', 's1'), ('send', 's2', 'ctxpub:1')], 'other': [('get_broker', 'b')]}, broker=dict(nactors=2, subscribers=(1,)), K=2, max_steps=90, mt=True)
     # service registry (C08 / C14 consequences)
     add('registry_sequential', None, {'c1': [('already_running',), ('from_registry', 'a'), ('already_running',), ('call', 'a', 'm1'), ('from_registry', 'b'), ('stop', 'a'), ('ping', 'b'), ('already_running',), ('from_registry', 'c'), ('try_from_registry',)]}, registry=True)
     add('registry_register', None, {'c1': [('spawn', 'x'), ('register', 'x', 'x2'), ('spawn', 'y'), ('register', 'y'), ('try_from_registry', 'r'), ('stop', 'r'), ('ping', 'r'), ('spawn', 'z'), ('register', 'z', 'z2'), ('already_running',), ('unregister', 'u'), ('already_running',), ('unregister',)]}, registry=True)
@@ -89,6 +97,10 @@ def mailbox_programs(tier):
 def evaluate(tr, status, cap, scripts, spec=None):
     """all oracles on one trace -> {pid: [messages]} (cap: None | int)"""
     out = {k: [] for k in PIDS}
+    if spec is not None and spec.get('broker'):
+        out['C09'] += oracle_broker(tr, status, dict(spec['broker'], scripts=scripts))
+        out['C02'] += oracle_resolves(tr, status, scripts)
+        return out
     if spec is not None and spec.get('children'):
         out['C16'] += oracle_children(tr, status, spec)
         out['C02'] += oracle_resolves(tr, status, scripts)
@@ -121,7 +133,7 @@ def evaluate(tr, status, cap, scripts, spec=None):
     return out
 
 
-PIDS = ('C01', 'C02', 'C04', 'C05', 'C06', 'C07', 'C08', 'C10', 'C12', 'C14', 'C15', 'C16', 'C17')
+PIDS = ('C01', 'C02', 'C04', 'C05', 'C06', 'C07', 'C08', 'C09', 'C10', 'C12', 'C14', 'C15', 'C16', 'C17')
 
 
 def run(functions, enums, repo, tier, max_steps=60, seed=0, validate=None):
@@ -145,7 +157,11 @@ def run(functions, enums, repo, tier, max_steps=60, seed=0, validate=None):
         sy.user_script['started_actions'] = spec['started_actions']
         for k, v in (spec['started'] or {}).items():
             sy.user_script[('started', k)] = v
-        if spec['children']:
+        if spec['broker']:
+            for i in spec['broker']['subscribers']:
+                sy.user_script[('started_actions', f'ctx{i-1}')] = (('subscribe',),)
+            p = BrokerProgram(sy, cap, scripts, handler_pending=hp, max_steps=spec['max_steps'], pre=pre, nchildren=spec['broker']['nactors'])
+        elif spec['children']:
             sy.user_script[('started_actions', 'ctx0')] = tuple((how, h) + (('keep',) if kept else ()) for (h, how, kept) in spec['children'])
             p = ChildrenProgram(sy, cap, scripts, handler_pending=hp, max_steps=spec['max_steps'], pre=pre, nchildren=len(spec['children']), children_spec=spec['children'])
         else:
@@ -159,7 +175,7 @@ def run(functions, enums, repo, tier, max_steps=60, seed=0, validate=None):
         if spec['max_clock'] is not None:
             p.max_clock = spec['max_clock']
         p.max_preemptions = spec['K']
-        native_ok = not spec['children'] and not spec['registry'] and not spec['owning'] and not spec['started_actions'] and not spec['faults'] and not spec['started'] and \
+        native_ok = not spec['broker'] and not spec['children'] and not spec['registry'] and not spec['owning'] and not spec['started_actions'] and not spec['faults'] and not spec['started'] and \
             not any(str(op[2]).startswith('panic') for sc in scripts.values() for op in sc if len(op) > 2)
         st = p.setup()
         n = 0
